@@ -1881,3 +1881,233 @@ def _r1_7(rep):
 
 
 RULES.rule("R1.7", "every emitted #[derive] is backed by the derive analysis applied to the right constituents (shared with C08 R8.1/R8.5)", floor=200)(_r1_7)
+
+
+def _r1_8(rep):
+    """Which generic parameters a template gets is decided by the used-template-parameters fixed point: when an instantiation is not
+    re-queued after its definition learns that it uses `T`, `pub struct Table { pub head: Row<T> }` is emitted without `<T>`
+    (E0425: cannot find type `T`).  The re-queue edges are C07's R7.1, run here so that C01's own check reports them."""
+    import c07
+    c07.r7_1(rep)
+
+
+RULES.rule("R1.8", "generic parameters of emitted templates come from a complete fixed point (shared with C07 R7.1)", floor=40)(_r1_8)
+
+
+AV = "codegen::AliasVariation"
+
+
+def _alias_styles_of_site(b, node):
+    """the set of AliasVariation variants under which `node` executes, read from its guard chain (match arms, `matches!`, `==`);
+    None if the chain does not mention the alias style."""
+    from hir import pat_variants
+    allv = {AV + "::TypeAlias", AV + "::NewType", AV + "::NewTypeDeref"}
+    cur = None
+    chain = []
+    for pol, kind, g in b.guards(node):
+        if kind == "cond":
+            # a true conjunction makes every conjunct true, a false disjunction makes every disjunct false
+            todo = [strip(g)]
+            while todo:
+                e = todo.pop()
+                if e.get("k") == "Binary" and e["op"] == ("&&" if pol else "||"):
+                    todo += [strip(e["l"]), strip(e["r"])]
+                else:
+                    chain.append((pol, kind, e))
+        else:
+            chain.append((pol, kind, g))
+    for pol, kind, g in chain:
+        s = None
+        if kind == "arm":
+            m, i = g
+            if (b.ty(m["scrut"]) or "").replace("&", "") == AV:
+                s = {v for v in pat_variants(m["arms"][i]["pat"]) if v.startswith(AV)}
+                if "_" in pat_variants(m["arms"][i]["pat"]):
+                    s = allv - {v for a in m["arms"][:i] for v in pat_variants(a["pat"])}
+        elif kind == "cond":
+            e = strip(g)
+            neg = False
+            while e.get("k") == "Unary" and e.get("op") == "!":
+                e = strip(e["e"])
+                neg = not neg
+            if e.get("k") == "Match" and (b.ty(e["scrut"]) or "").replace("&", "") == AV:
+                s = set()
+                for a in e["arms"]:
+                    if strip(a["body"]).get("k") == "Lit" and strip(a["body"]).get("v") is True:
+                        s |= {v for v in pat_variants(a["pat"]) if v.startswith(AV)}
+            elif e.get("k") == "Binary" and e["op"] in ("==", "!="):
+                sides = [strip(e["l"]), strip(e["r"])]
+                vs = [x.get("def") for x in sides if x.get("k") == "Path" and str(x.get("def", "")).startswith(AV + "::")]
+                if vs and any((b.ty(x) or "").replace("&", "") == AV for x in sides):
+                    s = set(vs)
+                    if e["op"] == "!=":
+                        neg = not neg
+            if s is not None and (neg != (not pol)):
+                s = allv - s
+        if s is not None:
+            cur = s if cur is None else (cur & s)
+    return cur
+
+
+def _only_alias(m):
+    """a `matches!(kind, ..)` expansion that is true exactly for TypeKind::Alias."""
+    from hir import pat_variants
+    true_vs = {v for a in m["arms"] if strip(a["body"]).get("v") is True for v in pat_variants(a["pat"])}
+    return _alias_kinds(true_vs)
+
+
+def _alias_kinds(vs):
+    """only typedef kinds, the plain one among them"""
+    return "ir::ty::TypeKind::Alias" in vs and vs <= {"ir::ty::TypeKind::Alias", "ir::ty::TypeKind::TemplateAlias"}
+
+
+def _r1_9(rep):
+    """`pub struct Handle(pub c_uint);` is emitted for `--new-type-alias` AND `--new-type-alias-deref`; a constant of such a type
+    has to be built with the tuple constructor under exactly the same styles, otherwise
+    `pub const INVALID_HANDLE: Handle = 4294967295;` does not type-check (E0308)."""
+    prog = rep.prog
+    tb = rep.need(prog.impl_fn("codegen::CodeGenerator", "ir::ty::Type", "codegen"), "<Type as CodeGenerator>::codegen")
+    vb = rep.need(prog.impl_fn("codegen::CodeGenerator", "ir::var::Var", "codegen"), "<Var as CodeGenerator>::codegen")
+    structs = set()
+    n_sites = 0
+    for q in qq.quote_sites(tb):
+        t = q.tokens
+        if "struct" in t and "#rust_name" in t:
+            s = _alias_styles_of_site(tb, q.root)
+            if s is not None:
+                n_sites += 1
+                structs |= s
+    rep.need(n_sites > 0, "the `pub struct #rust_name` emission of alias types under a match on the alias style")
+    wraps = None
+    for q in qq.quote_sites(vb):
+        t = [x for x in q.tokens if x.strip()]
+        if len(t) >= 4 and t[0].startswith("#") and t[1] == "(" and t[2].startswith("#") and t[3] == ")":
+            s = _alias_styles_of_site(vb, q.root)
+            if s is not None:
+                wraps = s if wraps is None else (wraps | s)
+    rep.need(wraps is not None, "the `#ty(#val)` constructor wrapping of constants under a test of the alias style in Var::codegen")
+    sh = lambda s: sorted(x.split("::")[-1] for x in s)
+    rep.check(wraps == structs, "const-constructor-styles", "constants are wrapped for %s; aliases are tuple structs for %s" % (sh(wraps), sh(structs)), vb.loc(vb.root))
+    rep.note("tuple_struct_styles", sh(structs))
+    # `Item::alias_style` answers from the item's NAME and falls back to `--default-alias-style`; it only means something for an
+    # item that is a typedef.  Every caller has to know that: `--default-alias-style new_type` otherwise turns
+    # `static const unsigned Z = 5;` into `pub const Z: c_uint = c_uint(5);`
+    from hir import pat_variants
+    n = 0
+    for p, b in sorted(prog.bodies.items()):
+        for c in b.calls(lambda x: x["k"] == "MCall" and callee_of(x) == "ir::item::Item::alias_style"):
+            n += 1
+            est = False
+            for pol, kind, g in b.guards(c, nested=True):
+                if kind == "arm" and pol:
+                    m, i = g
+                    if _alias_kinds(set(pat_variants(m["arms"][i]["pat"]))):
+                        est = True
+                elif kind == "cond" and pol:
+                    e = strip(g)
+                    if e.get("k") == "Match" and _only_alias(e):
+                        est = True
+                    if any(x["k"] in ("MCall", "Call") and callee_of(x).split("::")[-1] in ("is_alias", "is_type_alias") for x in b.walk(e)):
+                        est = True
+            # a test on the same statement path: `let is_alias = ..TypeKind::Alias..; if is_alias && matches!(x.alias_style(..)..)`
+            for a in b.ancestors(c):
+                if a["k"] == "Binary" and a["op"] == "&&":
+                    l = strip(a["l"])
+                    if l.get("k") == "Local" and b.local_init(l["id"]) is not None:
+                        l = strip(b.local_init(l["id"]))
+                    if l.get("k") == "Match" and _only_alias(l):
+                        est = True
+            rep.check(est, "alias-style-only-for-aliases@" + short(p),
+                      "Item::alias_style is asked of an item known to be TypeKind::Alias" if est else
+                      "Item::alias_style is asked of an item that need not be a typedef: the default style then applies to builtin types too",
+                      b.loc(c))
+    rep.need(n >= 2, "calls of Item::alias_style (alias emission, constant emission)")
+
+
+RULES.rule("R1.9", "constants of a newtype alias use the tuple constructor under exactly the styles that emit a tuple struct", floor=3)(_r1_9)
+
+
+# R1.10 — added by the main session after a seeding agent noticed `[Outer_Inner; 3]` on the unchanged tree.
+IMPLICIT_EXEMPT = {
+    # (function, discriminator) -> reason.  discriminator: the TypeKind arm the site sits in, "cparam" for a closure parameter receiver, "" otherwise
+    ("TryToRustTy::try_to_rust_ty<blanket>", ""): "blanket `id -> item` delegation; whoever holds the id applies the parameters",
+    ("Enum::codegen", ""): "the integer representation type of an enum",
+    ("TemplateInstantiation::codegen", ""): "an instantiation spells its template arguments explicitly",
+    ("Type::codegen", "cparam"): "the template parameters of an alias themselves (TypeKind::TypeParam)",
+    ("WithImplicitTemplateParams::with_implicit_template_params", "cparam"): "the parameters themselves",
+    ("Type::try_to_rust_ty", "ResolvedTypeRef"): "a type reference: the caller's with_implicit_template_params resolves through type refs",
+    ("Var::codegen", ""): "variables of templates are never emitted (early return when all_template_params is not empty)",
+    ("utils::fnsig_argument_type", "Pointer"): "the argument is a pointer: the Pointer arm of try_to_rust_ty applies the parameters to the pointee",
+}
+
+
+def _r1_10(rep):
+    """A type nested in a class template (`template<class T> struct Outer { struct Inner { T x; }; }`) is emitted as
+    `Outer_Inner<T>`: the parameters are implicit in C++ and have to be added wherever the type is named.  The conversion
+    `id.try_to_rust_ty(..)` / `to_rust_ty_or_opaque(..)` yields the bare path, so every site that embeds the result in emitted
+    syntax has to apply `with_implicit_template_params` (or be exempt for a stated reason); otherwise `Inner arr[3]`,
+    `void (*cb)(Inner)` or `Inner flex[]` inside `Outer` name `Outer_Inner` without `<T>` (E0107)."""
+    from hir import pat_variants
+    prog = rep.prog
+    n = 0
+    used = set()
+    for p, b in sorted(prog.bodies.items()):
+        if not (p.startswith("codegen::") or "codegen::" in p):
+            continue
+        for c in b.nodes:
+            if c["k"] != "MCall" or c.get("name") not in ("try_to_rust_ty", "to_rust_ty_or_opaque", "try_to_rust_ty_or_opaque"):
+                continue
+            rt = (prog.types[c["rt"]] if c.get("rt") is not None else "").replace("&", "")
+            if rt not in ("ir::item::Item", "ir::context::ItemId", "ir::context::TypeId"):
+                continue
+            n += 1
+            wrapped = False
+            for a in b.ancestors(c):
+                if a["k"] == "MCall" and a.get("name") == "with_implicit_template_params":
+                    wrapped = True
+                if a["k"] in ("Let", "Semi", "ExprStmt", "Block"):
+                    if a["k"] == "Let" and a["pat"].get("k") == "Bind" and not wrapped:
+                        lid = a["pat"]["id"]
+                        uses = [x for x in b.nodes if x["k"] == "Local" and x["id"] == lid]
+                        wrapped = bool(uses) and all(
+                            any(y["k"] == "MCall" and y.get("name") == "with_implicit_template_params" and strip(y["recv"]) is x
+                                for y in b.ancestors(x)) for x in uses)
+                    break
+            fn = short(p)
+            if p.startswith("<T as codegen::TryToRustTy>"):
+                fn = "TryToRustTy::try_to_rust_ty<blanket>"
+            elif "WithImplicitTemplateParams" in p:
+                fn = "WithImplicitTemplateParams::with_implicit_template_params"
+            else:
+                fn = re.sub(r"^<(.+?) as .+?>::", lambda m: m.group(1).split("::")[-1].split("<")[0] + "::", re.sub(r"::<[^<>]*>", "", p))
+                fn = "::".join(fn.split("::")[-2:]) if fn.count("::") > 1 else fn
+            arms = [[v.split("::")[-1] for v in pat_variants(g[0]["arms"][g[1]]["pat"])] for pol, k, g in b.guards(c) if k == "arm" and
+                    (b.ty(g[0]["scrut"]) or "").replace("&", "").endswith("TypeKind")]
+            r = strip(c["recv"])
+            d = b.local_def.get(r.get("id")) if r.get("k") == "Local" else None
+            disc = "cparam" if d and d[0][0] == "cparam" else ("|".join(arms[-1]) if arms else "")
+            key = "%s/%s" % (fn, disc) if disc else fn
+            if wrapped:
+                rep.ok("implicit-params:" + key, "with_implicit_template_params is applied", b.loc(c))
+                continue
+            why = IMPLICIT_EXEMPT.get((fn, disc))
+            if why is None and disc:
+                why = IMPLICIT_EXEMPT.get((fn, disc.split("|")[0])) if (fn, disc.split("|")[0]) in IMPLICIT_EXEMPT and "|" not in disc else None
+            if why is not None:
+                used.add((fn, disc))
+                rep.ok("implicit-params:" + key, "exempt: " + why, b.loc(c))
+            else:
+                rep.bad("implicit-params:" + key, "`%s.%s(..)` is embedded without with_implicit_template_params: a type nested in a class template is "
+                        "named without its generic arguments here" % (b.canon(c["recv"], 2)[:50], c["name"]), b.loc(c))
+    rep.need(n >= 18, "conversions of nested item ids to Rust types in codegen")
+    # the reason given for Var::codegen is checked, not believed
+    vb = prog.impl_fn("codegen::CodeGenerator", "ir::var::Var", "codegen")
+    if vb is not None:
+        early = False
+        for x in vb.nodes:
+            if x["k"] == "If" and vb.diverges(x["then"]) and "all_template_params" in vb.canon(x["cond"], 6) and "is_empty" in vb.canon(x["cond"], 6):
+                early = True
+        rep.check(early, "implicit-params:Var::codegen:templates-skipped", "Var::codegen returns early for variables with template parameters", vb.loc(vb.root))
+
+
+RULES.rule("R1.10", "nested types of class templates are named with their implicit generic arguments at every embedding site", floor=19)(_r1_10)
